@@ -156,6 +156,11 @@ def sysex(ctx, tag, k):
     return wire.make_message(ctx, 'sysex', {'data': AList([smf.sym(f'{tag}{i}', 127) for i in range(k)], 'tuple')}, 0)
 
 
+def _timed(msg, t):
+    msg.attrs['time'] = t
+    return msg
+
+
 def r19_roundtrip(ctx):
     m = ctx.p.module(SYX)
     wr = m.functions.get('write_syx_file')
@@ -173,6 +178,9 @@ def r19_roundtrip(ctx):
         'two-adjacent': lambda: [sysex(ctx, 'a', 1), sysex(ctx, 'b', 3)],
         'no-sysex': lambda: [wire.make_message(ctx, 'note_on', {'channel': 1, 'note': 2, 'velocity': 3}, 0)],
         'empty-list': lambda: [],
+        # the order is the order of the list, whatever the messages carry otherwise (their times run backwards here)
+        'times-running-backwards': lambda: [_timed(sysex(ctx, 'a', 2), 9), _timed(sysex(ctx, 'b', 1), 5),
+                                            _timed(wire.make_message(ctx, 'clock', {}, 0), 7), _timed(sysex(ctx, 'c', 3), 0.5)],
     }
     for name, factory in lists.items():
         for plaintext in (False, True):
